@@ -17,7 +17,8 @@ RULE = ("histories through the real kvarn::handle_cache in process (component va
         "{lower-case, first-byte class lo/hi/none, length mod 3, constant} implemented in Rust and in Gallina, default incl. defaults equal to a class), "
         "registered under the exact path or under a pattern '<prefix>*' (longer pattern / exact path win), server cache preference Full or QueryMatters, "
         "bodies below and above the 50-byte floor of the compressor, with and without the default extensions (Prime uri_redirect in front); served by a "
-        "counting handler that echoes its own transformed tuple (and the query on QueryMatters pages); requests GET/HEAD/POST whose rule headers are "
+        "counting handler that echoes its own transformed tuple (and the query on QueryMatters pages), on 'picky' pages declaring no server caching "
+        "for some tuples (those variants must be recomputed by every request and never appear in a dump); requests GET/HEAD/POST whose rule headers are "
         "absent, present (same class / different class), empty, repeated with values of different classes, or not text (obs-text bytes), with "
         "accept-encoding, If-Modified-Since (start + 100 s = fresh for every entry, start - 100 s = for none; with a tuple that is stored -> 304, with one "
         "that is not -> computed), and on the wire Range (satisfiable, starting after the end, start > end, unparsable; together with a fresh "
@@ -34,7 +35,7 @@ RULE = ("histories through the real kvarn::handle_cache in process (component va
         "tuple was computed since the last clear (a 304 for any other tuple is a violation), whatever the Range header; every 200/206 body is the "
         "rendering of the request's own transformed tuple; "
         "every response with a body carries exactly one vary line 'accept-encoding, range' + the rule headers of the page, 416/404/400/406 included; "
-        "no dumped vector holds two variants with equal lists. distinct_nontrivial = histories that stored >= 3 variants on one page / wire histories "
+        "no dumped vector holds two variants with equal lists, and every dump holds exactly the tuples computed and admitted since the last clear. distinct_nontrivial = histories that stored >= 3 variants on one page / wire histories "
         "with >= 2 different statuses")
 ASSUMPTIONS = [
     "sequential histories in the theorems about serveV (one request at a time); the one suspension point of handle_cache (the await on the handler in "
@@ -54,8 +55,9 @@ ASSUMPTIONS = [
     "in the model but unreachable from serveV); C03/C04 cover them in Model/CacheX.v",
     "handle_vary_missing admits a new variant like a new item (kvarn 8fe98d4, 92a9cd2: preference, method, status filter, kvarn-cache-control, size "
     "limit; a query-dependent response only into an item keyed with the query; lifetime capped by the variant's own): modelled and covered by every "
-    "theorem (invariant, refinement of Model/CacheX.v, served_copy_is_held); the fixture's pages answer every GET/HEAD variant of a page with the same "
-    "cacheability, so the differential run of this property exercises the admitted branch only - the refused branch is exercised by C04 (pipex.run)",
+    "theorem (invariant, refinement of Model/CacheX.v, served_copy_is_held); exercised by pages whose handler (kind 6, harness/src/c05.rs) declares no "
+    "server caching for some transformed tuples; the other reasons for a refusal (status filter, kvarn-cache-control, size, a query-dependent variant "
+    "of a path-keyed item) need per-variant statuses/headers/preferences the fixture does not have: exercised by C04 (pipex.run)",
     "on the wire: wire_vary_advertised assumes that the operator's Package extensions leave `vary` alone (hypothesis; the ones of Extensions::new() do, "
     "observed); what send does besides (content-length, connection, version) is C08's subject and not in Model/VaryWire.v; the answers handle_connection "
     "gives before a host's page is consulted (429 of the limiter, 409 for an unknown host) carry no vary and are outside the property (they do not "
@@ -1121,6 +1123,6 @@ THEOREM_PINS = [
     ('honest_not_modified_sound',
      "forall (hstate : Type) (compute : hstate -> request -> bool -> fat * hstate * list bytes) (cache_on ims_on : bool) (parse_ims : bytes -> option Z) (sanitize_ok : request -> bool) (prime : request -> request) (negotiate : request -> fat -> option (N * bytes)) (rules_of : bytes -> list rule) (dbg : bool) (L : N) (c2 : vcache) (hs2 : hstate) (t1 : N) (ops2 : list op) (c3 : vcache) (hs3 : hstate) (t3 : N) (r r' : request) (f : fat) (k : key) (e : ventry) (c3' : vcache), InvV hstate compute rules_of c2 -> pc_find (key_pq r) c2 = None \\/ pc_find (key_p r) c2 = None -> (exists (k0 : key) (e0 : ventry), (k0 = key_pq r \\/ k0 = key_p r) /\\ pc_find k0 c2 = Some e0 /\\ vr_get_by_request (ve_var e0) r = Ok (Hit (f, own_tuple rules_of r)) /\\ L <= ve_created e0) \\/ pc_find (key_pq r) c2 = None /\\ pc_find (key_p r) c2 = None -> later L t1 ops2 -> runV_state hstate compute cache_on ims_on parse_ims sanitize_ok prime negotiate rules_of dbg (c2, hs2) t1 ops2 = Ok (c3, hs3, t3) -> path_query r' = path_query r -> own_tuple rules_of r' = own_tuple rules_of r -> vlookup r' c3 t3 = (k, Some e, c3') -> ve_created e <= L -> vr_get_by_request (ve_var e) r' = Ok (Hit (f, own_tuple rules_of r'))"),
     ('served_copy_is_held',
-     "forall (hstate : Type) (compute : hstate -> request -> bool -> fat * hstate * list bytes) (cache_on ims_on : bool), (request -> bool) -> (request -> request) -> forall (negotiate : request -> fat -> option (N * bytes)) (rules_of : bytes -> list rule) (dbg : bool), (forall (r : request) (c : vcache) (now : N) (k : key) (e : ventry) (c1 : vcache) (f : fat), vlookup r c now = (k, Some e, c1) -> vr_get_by_request (ve_var e) r = Ok (Hit (f, own_tuple rules_of r)) -> holds_copy rules_of c1 r f (ve_created e)) /\\ (forall (c1 : vcache) (hs' : hstate) (now : N) (r : request) (f : fat) (lg : list bytes) (lm_of : fat -> bool) (cached : bool) (st' : vstate hstate) (rp : reply) (lg' : list bytes) (calls : list request), may_store cache_on (rq_method r) f = true -> new_and_cache hstate cache_on negotiate rules_of dbg c1 hs' now r f lg lm_of cached = Ok (st', rp, lg', calls) -> holds_copy rules_of (fst st') r f now /\\ rp = finishV negotiate r f (own_tuple rules_of r) (lm_of f) cached) /\\ (forall (c : vcache) (hs : hstate) (now : N) (r : request) (ok : bool) (k : key) (e : ventry) (position : nat) (headers : hcoll) (st' : vstate hstate) (rp : reply) (lg : list bytes) (calls : list request), InvV hstate compute rules_of c -> k = key_pq r \\/ k = key_p r -> pc_find k c = Some e -> vfresh e now = true -> ve_created e <= now -> vr_get_by_request (ve_var e) r = Ok (Miss position headers) -> vary_missing hstate compute cache_on ims_on negotiate rules_of dbg c hs now r ok k position headers = Ok (st', rp, lg, calls) -> rp = finishV negotiate r (fst (fst (compute hs r ok))) (own_tuple rules_of r) ims_on true /\\ (if variant_admitted cache_on k r (fst (fst (compute hs r ok))) then holds_copy rules_of (fst st') r (fst (fst (compute hs r ok))) (ve_created e) else fst st' = c))"),
+     "forall (hstate : Type) (compute : hstate -> request -> bool -> fat * hstate * list bytes) (cache_on ims_on : bool), (request -> bool) -> (request -> request) -> forall (negotiate : request -> fat -> option (N * bytes)) (rules_of : bytes -> list rule) (dbg : bool), (forall (r : request) (c : vcache) (now : N) (k : key) (e : ventry) (c1 : vcache) (f : fat), vlookup r c now = (k, Some e, c1) -> vr_get_by_request (ve_var e) r = Ok (Hit (f, own_tuple rules_of r)) -> holds_copy rules_of c1 r f (ve_created e)) /\\ (forall (c1 : vcache) (hs' : hstate) (now : N) (r : request) (f : fat) (lg : list bytes) (lm_of : fat -> bool) (cached : bool) (st' : vstate hstate) (rp : reply) (lg' : list bytes) (calls : list request), may_store cache_on (rq_method r) f = true -> new_and_cache hstate cache_on negotiate rules_of dbg c1 hs' now r f lg lm_of cached = Ok (st', rp, lg', calls) -> holds_copy rules_of (fst st') r f now /\\ rp = finishV negotiate r f (own_tuple rules_of r) (lm_of f) cached) /\\ (forall (c : vcache) (hs : hstate) (now : N) (r : request) (ok : bool) (k : key) (e : ventry) (position : nat) (headers : hcoll) (st' : vstate hstate) (rp : reply) (lg : list bytes) (calls : list request), InvV hstate compute rules_of c -> k = key_pq r \\/ k = key_p r -> pc_find k c = Some e -> vfresh e now = true -> ve_created e <= now -> vr_get_by_request (ve_var e) r = Ok (Miss position headers) -> vary_missing hstate compute cache_on ims_on negotiate rules_of dbg c hs now r ok k position headers = Ok (st', rp, lg, calls) -> rp = finishV negotiate r (fst (fst (compute hs r ok))) (own_tuple rules_of r) ims_on true /\\ (if variant_accepted cache_on k r (fst (fst (compute hs r ok))) then holds_copy rules_of (fst st') r (fst (fst (compute hs r ok))) (ve_created e) else fst st' = c))"),
 ]
 THEOREMS = THEOREM_PINS
